@@ -241,40 +241,53 @@ void BatchSpanProcessor::Export()
 
   do
   {
-    std::vector<std::unique_ptr<Recordable>> spans_arr;
-    size_t num_records_to_export;
+    // Number of records this cycle has to deliver before it reports completion: everything queued
+    // when a ForceFlush is (or ever was) requested, one batch otherwise.
+    size_t num_records_to_flush;
     std::uint64_t notify_force_flush =
         synchronization_data_->force_flush_pending_sequence.load(std::memory_order_acquire);
     if (notify_force_flush)
     {
-      num_records_to_export = buffer_.size();
+      num_records_to_flush = buffer_.size();
     }
     else
     {
-      num_records_to_export =
+      num_records_to_flush =
           buffer_.size() >= max_export_batch_size_ ? max_export_batch_size_ : buffer_.size();
     }
 
-    if (num_records_to_export == 0)
+    if (num_records_to_flush == 0)
     {
       NotifyCompletion(notify_force_flush, exporter_, synchronization_data_);
       break;
     }
 
-    // Reserve space for the number of records
-    spans_arr.reserve(num_records_to_export);
+    // Never hand more than max_export_batch_size_ records to the exporter in one call.
+    while (num_records_to_flush > 0)
+    {
+      std::vector<std::unique_ptr<Recordable>> spans_arr;
+      size_t num_records_to_export = num_records_to_flush;
+      if (max_export_batch_size_ > 0 && num_records_to_export > max_export_batch_size_)
+      {
+        num_records_to_export = max_export_batch_size_;
+      }
 
-    buffer_.Consume(num_records_to_export,
-                    [&](CircularBufferRange<AtomicUniquePtr<Recordable>> range) noexcept {
-                      range.ForEach([&](AtomicUniquePtr<Recordable> &ptr) {
-                        std::unique_ptr<Recordable> swap_ptr = std::unique_ptr<Recordable>(nullptr);
-                        ptr.Swap(swap_ptr);
-                        spans_arr.push_back(std::unique_ptr<Recordable>(swap_ptr.release()));
-                        return true;
+      // Reserve space for the number of records
+      spans_arr.reserve(num_records_to_export);
+      buffer_.Consume(num_records_to_export,
+                      [&](CircularBufferRange<AtomicUniquePtr<Recordable>> range) noexcept {
+                        range.ForEach([&](AtomicUniquePtr<Recordable> &ptr) {
+                          std::unique_ptr<Recordable> swap_ptr =
+                              std::unique_ptr<Recordable>(nullptr);
+                          ptr.Swap(swap_ptr);
+                          spans_arr.push_back(std::unique_ptr<Recordable>(swap_ptr.release()));
+                          return true;
+                        });
                       });
-                    });
 
-    exporter_->Export(nostd::span<std::unique_ptr<Recordable>>(spans_arr.data(), spans_arr.size()));
+      exporter_->Export(nostd::span<std::unique_ptr<Recordable>>(spans_arr.data(), spans_arr.size()));
+      num_records_to_flush -= num_records_to_export;
+    }
     NotifyCompletion(notify_force_flush, exporter_, synchronization_data_);
   } while (true);
 
